@@ -94,4 +94,10 @@ DRIVERS = {
         "level_text": "All scenarios of the listed families are run through the real Oomd::run refresh cycle; inside every tick all 32 accessors of every cgroup are compared with independent reference functions (parsing, hierarchical protection, effective swap min/min/max over ancestors, io-cost dot product, EWMA, per-tick deltas, identity), files are then rewritten and all accessors re-queried (no value may move), and the next tick must show the new contents.",
         "level_note": "Trusted: reference functions written from CgroupContext.h comments and docs/io_cost.md (DESIGN.md A.4), simulated files on tmpfs. Missing/empty/unparsable files belong to C10.",
     },
+    "C18": {
+        "sources": COMMON + ["props/c18.cpp"], "level": "exploration", "engine": "E1",
+        "technique": "bounded-exhaustive enumeration of world/argument/history scenarios executed on the real senpai plugin; monitor over every control-file write at the interposed write(2) with independently recomputed floor, ceiling and guards",
+        "level_text": "Every scenario of the four families (arguments one at a time x PSI histories, product of all floor/ceiling/guard inputs, pressures around the immediate-mode targets, vanishing / re-created / externally modified targets) is executed for 8 ticks in both modes; each write senpai makes is checked for target, file, alignment, floor, ceiling, amount, pressure guard, swap guard and same-tick reset.",
+        "level_note": "Trusted: reference floor/ceiling/guards (DESIGN.md A.6), harness model of kernfs read-back of memory.high / memory.high.tmp / memory.reclaim. The threaded memory_high_timeout_ms path is not exercised.",
+    },
 }
